@@ -1,3 +1,4 @@
+-- library root: everything reachable from the driver; property theorem modules are built per
+-- property by ./check (lake build ActixModel.Props.Cxx)
 import ActixModel.Util
-import ActixModel.Model.HeaderMap
-import ActixModel.Drv.C18
+import ActixModel.Consts
